@@ -270,3 +270,7 @@ def run(R, tier):
                     srcs = set(_re.findall(r"numeric_value_(?:max|min)", repr(fdai.snapshot(rs[0].retval))))
                 R.check(okq and srcs == {b.name}, "R17.4", "Quantity::%s" % b.name, "wraps the storage type's %s()" % b.name, "Quantity::%s() is built from %s" % (b.name, sorted(srcs) or "nothing recognisable"), where=b.span)
     R.floor("R17.4", "type default impls", n_def, 26)
+
+    # ---- R17.6 typed echo tables: a numeric_value parameter resolved by the builder, end to end --------------------------------------
+    from . import echotable as ET
+    ET.check(R, "R17.6", "numeric", tier, "`*NUM? <x>` (u8, 10..100, default 50) and `*NUMND? <x>` (i16, -1000..1000, no default) through Node::run on the echo witness: MAXimum / MINimum / DEFault / UP / DOWN in short and long form and look-alikes, values at and beyond both bounds, conversion errors of the underlying type", 70)
